@@ -302,6 +302,6 @@ def switch_on_call_result(body, cs):
         if t["k"] != "switch":
             continue
         o = pr.operand(t["discr"])
-        if ("call", cs.bb) in o:
+        if ("call", cs.bb) in o or ("via", cs.bb) in o:
             out.append((i, {v: tb for v, tb in t["targets"]}, t["otherwise"]))
     return out
